@@ -14,7 +14,7 @@ Proof.
   assert (Hgen : forall o', on_table g (crud_step (g_table g) o') = Ok (g', code) -> sets_wf (t_sets (g_table g'))).
   { intros o' H'. unfold on_table in H'. destruct (crud_step (g_table g) o') as [[t c]|tag] eqn:E; [|discriminate].
     inversion H'; subst. cbn [with_table g_table]. apply (crud_step_sets_wf _ _ _ _ Hw E). }
-  destruct o as [o'|p exp|p im d names|p im names all|p r|].
+  destruct o as [o'|p exp|p im d names|p im names all|p r| | |r|nl asn].
   - destruct o' as [rp nm c|al nm c|nm cs d0 a0|nm al cs d0 a0|nm ss|nm pr al ss|st im0 d0 ns|im0 ns al|im0 ro| | |nl asn];
       cbn [gstep] in H; try (apply (Hgen _ H)).
     + destruct (peers_ref g nm); [inversion H; subst; exact Hw|apply (Hgen _ H)].
@@ -28,6 +28,9 @@ Proof.
   - cbn [gstep] in H. destruct im; [inversion H; subst; exact Hw|].
     destruct (find_peer p (g_peers g)) as [ex0|]; [|inversion H; subst; exact Hw].
     destruct all; [inversion H; subst; exact Hw|]. destruct ex0; inversion H; subst; exact Hw.
+  - cbn [gstep] in H. inversion H; subst. exact Hw.
+  - cbn [gstep] in H. inversion H; subst. exact Hw.
+  - cbn [gstep] in H. inversion H; subst. exact Hw.
   - cbn [gstep] in H. inversion H; subst. exact Hw.
   - cbn [gstep] in H. inversion H; subst. exact Hw.
 Qed.
